@@ -251,9 +251,19 @@ package multiplex
 //@   ensures typeIs[*[]byte](ret0) && ret0.(*[]byte) != nil && len(*(ret0.(*[]byte))) == sesh.streamSendBufferSize
 //@   flag noframe
 
+// pickRandConn only reads the pool (atomics, the random source, the connection map)
+//@ func (*switchboard).pickRandConn
+//@   flag trusted
+//@   requires sb != nil
+//@   ensures connOnSuccess: ret1 == nil ==> ret0 != nil
 //@ func (*switchboard).send
-//@   requires sb != nil && sb.session != nil && sb.valve != nil
+//@   requires sb != nil && sb.session != nil && sb.valve != nil && assignedConn != nil
 //@   ensures allOrError: err == nil ==> n == len(data)
+//@   # C19: every message waits for its whole length in the DOWNLOAD (tx) bucket before it is written, and
+//@   # what was written is added to the tx counter
+//@   atcall txWait requires wholeMessage: arg0.(int) == len(data)
+//@   atcall Write requires pacedFirst: calls("(Valve).txWait") == 1
+//@   atcall AddTx requires chargesWhatWasSent: int(arg0.(int64)) == n
 //@   modifies *
 //@   preserves Frame.StreamID, Frame.Seq, Frame.Closing, Frame.Payload, Stream.id, Stream.session, Session.sb, SessionConfig.MsgOnWireSizeLimit, Session.maxStreamUnitWrite, Session.streamSendBufferSize, SessionConfig.Unordered, SessionConfig.Valve, SessionConfig.Singleplex, Obfuscator.payloadCipher, switchboard.session, switchboard.valve, heap(B_Slice)
 
@@ -505,6 +515,10 @@ package multiplex
 //@   flag trusted
 //@ func (Valve).AddRx
 //@   flag trusted
+//@ func (Valve).txWait
+//@   flag trusted
+//@ func (Valve).AddTx
+//@   flag trusted
 
 // recvDataFromRemote: a message that does not decode is answered with an error and NOTHING else happens:
 // no stream is looked up or created, no frame is delivered, the session is not closed.
@@ -521,6 +535,12 @@ package multiplex
 //@ func (*switchboard).deplex
 //@   requires sb != nil && sb.session != nil && sb.valve != nil && conn != nil && holdsNone() && cipherOK(&sb.session.Obfuscator) && sb.session.sb != nil && sb.session.connReceiveBufferSize >= 0
 //@   ensures endsOnlyOnReadError: called("(*Session).passiveClose") && closedconn(conn)
+//@   # C19: what is received is paced and counted on the UPLOAD (rx) side, for the number of bytes read
+//@   atcall rxWait requires whatWasRead: arg0.(int) == n
+//@   atcall AddRx requires whatWasRead: int(arg0.(int64)) == n
+//@   atcall txWait requires receivePathNeverUsesTx: false
+//@   atcall AddTx requires receivePathNeverUsesTx: false
+//@   loop 0 step pacedEveryRead: calls("(Valve).rxWait") == old(calls("(Valve).rxWait")) + 1 && calls("(Valve).AddRx") == old(calls("(Valve).AddRx")) + 1
 //@   flag noframe
 //@   loop 0 invariant live: holdsNone() && sb.session != nil && sb.valve != nil && cipherOK(&sb.session.Obfuscator) && sb.session.sb != nil && len(buf) == old(sb.session.connReceiveBufferSize) && fresh(buf)
 
@@ -610,3 +630,18 @@ package multiplex
 //@   ensures eofIsBrokenStream: err != io.EOF
 //@   ensures countOnSuccess: err == nil ==> 0 <= n && n <= len(buf)
 //@   flag noframe
+
+// ---------------------------------------------------------------------------------------------
+// C19: the valve. The token buckets are the ratelimit library's (its pacing guarantee - at most
+// rate*t + capacity tokens in any interval t, and no starvation below the rate - is assumed); what is
+// proved is that each direction gets a bucket of ITS rate with one second's worth of burst.
+// ---------------------------------------------------------------------------------------------
+//@ func github.com/juju/ratelimit.NewBucketWithRate
+//@   flag trusted
+//@   ensures ret0 != nil && fresh(ret0) && uf("tb_capacity", ret0) == int(capacity)
+//@ func MakeValve
+//@   requires rxRate > 0 && txRate > 0
+//@   atcall NewBucketWithRate requires rateEqualsBurst: arg0.(float64) == float64(arg1.(int64))
+//@   ensures rxBucket: ret0 != nil && ret0.rxtb != nil && uf("tb_capacity", ret0.rxtb) == int(rxRate)
+//@   ensures txBucket: ret0.txtb != nil && uf("tb_capacity", ret0.txtb) == int(txRate)
+//@   ensures counters: ret0.rx != nil && ret0.tx != nil && ret0.rx != ret0.tx && *ret0.rx == 0 && *ret0.tx == 0
